@@ -151,6 +151,20 @@ pub fn corpus(idx: usize, seed: u64, w: &mut dyn Write, thorough: bool) -> Optio
             g.step(&x(&h1, vec![], MMsg::RC { sender: va("bobby"), amount: 5, inner: Inner::AB { id: 3 } }));
             g.step(&x(&h2, vec![], MMsg::RN { sender: va("alice"), token_id: "t001".into(), inner: Inner::AL { id: 5 } }));
             g.step(&x("bobby", vec![], MMsg::RB { id: 3 }));
+            // the same (collection, token id) can never be recorded twice, whoever calls the hook:
+            // a contract's own listing 60 and bucket 61, topped up twice with the same token id
+            let cr = create(&[(1, JUNO_DENOM)]);
+            g.step(&x(&h2, vec![], MMsg::RN { sender: va(&h2), token_id: "t002".into(), inner: Inner::CL { id: 60, create: cr } }));
+            g.step(&x(&h2, vec![], MMsg::RN { sender: va(&h2), token_id: "t003".into(), inner: Inner::AL { id: 60 } }));
+            g.step(&x(&h2, vec![], MMsg::RN { sender: va(&h2), token_id: "t003".into(), inner: Inner::AL { id: 60 } })); // duplicate: refused
+            g.step(&x(&h2, vec![], MMsg::RN { sender: va(&h2), token_id: "t002".into(), inner: Inner::AL { id: 60 } })); // duplicate: refused
+            g.step(&x(&h2, vec![], MMsg::RN { sender: va(&h2), token_id: "t002".into(), inner: Inner::CB { id: 61 } }));
+            g.step(&x(&h2, vec![], MMsg::RN { sender: va(&h2), token_id: "t002".into(), inner: Inner::AB { id: 61 } })); // duplicate: refused
+            g.step(&x(&h2, vec![], MMsg::RN { sender: va(&h2), token_id: "t003".into(), inner: Inner::AB { id: 61 } }));
+            g.step(&x(&h1, vec![], MMsg::RC { sender: va(&h1), amount: 5, inner: Inner::CB { id: 62 } }));
+            g.step(&x(&h1, vec![], MMsg::RC { sender: va(&h1), amount: 6, inner: Inner::AB { id: 62 } })); // merges
+            g.step(&x(&h2, vec![], MMsg::DL { id: 60 }));
+            g.step(&x(&h2, vec![], MMsg::RB { id: 61 }));
             g.h.sim.set_hostile_fails(0, true);
             let init = g.h.resync();
             g.emit(&init);
@@ -384,6 +398,18 @@ pub fn boundary(idx: usize, seed: u64, w: &mut dyn Write, thorough: bool) -> Opt
             g.step(&x("carol", vec![coin(3, &ds[24])], MMsg::AL { id: 3 }));
             g.step(&x("carol", vec![coin(3, &ds[25])], MMsg::AL { id: 3 }));
             g.step(&Op::T20 { token: t.clone(), sender: "carol".into(), amount: 5, inner: Inner::AL { id: 3 } });
+            // one top-up carrying TWO new denominations must not cross the cap either (listing 5 / bucket 6 hold 24)
+            g.step(&x("alice", mk(24), MMsg::CL { id: 5, create: create(&[(1, JUNO_DENOM)]) }));
+            g.step(&x("alice", vec![coin(3, &ds[24]), coin(3, &ds[25])], MMsg::AL { id: 5 })); // 26: refused
+            g.step(&x("alice", vec![coin(3, &ds[0]), coin(3, &ds[24]), coin(3, &ds[25])], MMsg::AL { id: 5 })); // refused
+            g.step(&x("alice", vec![coin(3, &ds[0]), coin(3, &ds[24])], MMsg::AL { id: 5 })); // merge + 1 new = 25: ok
+            g.step(&x("alice", vec![coin(3, &ds[1]), coin(3, &ds[2])], MMsg::AL { id: 5 })); // merges only on a full listing: ok
+            g.step(&x("alice", vec![coin(3, &ds[25])], MMsg::AL { id: 5 })); // 26: refused
+            g.step(&x("bobby", mk(24), MMsg::CB { id: 6 }));
+            g.step(&x("bobby", vec![coin(3, &ds[24]), coin(3, &ds[25])], MMsg::AB { id: 6 })); // refused
+            g.step(&x("bobby", vec![coin(3, &ds[0]), coin(3, &ds[24])], MMsg::AB { id: 6 })); // ok (25)
+            g.step(&x("bobby", vec![coin(3, &ds[1]), coin(3, &ds[2])], MMsg::AB { id: 6 })); // merges only: ok
+            g.step(&x("bobby", vec![coin(3, &ds[25])], MMsg::AB { id: 6 })); // refused
             // asks with 25 / 26 items
             let ask25 = RawGBal::natives(mk(25));
             let ask26 = RawGBal::natives(mk(26));
